@@ -10,6 +10,11 @@ finite differences, shared MemoryFullCache) are compared with their sequential c
 Histories of several `execute()` calls on ONE executor object are run call by call against the session
 model (`call` lines), and workers sharing one full cache that execute then linearize are run under forced
 interleavings of the cache writes, the real cache being compared with the `JCache` model after every write.
+Tasks that are not pure — calls of `_Functor.__call__` on discipline objects (execution status left by a failed
+task, `execute=False/True`, failures in `_run` or `_compute_jacobian`, the same object used again in the same call
+and in the next one) and disciplines working in place on the input array they are handed (MDOParallelChain with
+use_deep_copy on/off, DiscParallelExecution/Linearization) — are run against the effectful executor of the model
+(`einit`/`ecall` lines: the objects' status and array after every transition).
 No verdict depends on wall-clock time (see `unusable`, `usable_run`, `SKIP`).
 Oracle: written from the property text (sequential map, callback multiset, failure isolation,
 no hang), never from the model.
